@@ -1,4 +1,4 @@
-//go:build verif && !verifint
+//go:build verif && !vi_merklization_c15
 
 package merklization
 
